@@ -216,3 +216,16 @@ Section Relabel.
     rewrite Ew. apply normalize_sel. rewrite Lw. exact Hperm.
   Qed.
 End Relabel.
+
+(* ------------------------------------------------------------------ guess_regularizing, reduced versions *)
+Lemma gr_mean_x_eq xs : gr_mean_x xs == gr_mean xs.
+Proof. unfold gr_mean_x, gr_mean. rewrite Qred_correct, qsumr_eq. reflexivity. Qed.
+
+Lemma gr_var_x_eq xs : gr_var_x xs == gr_var xs.
+Proof.
+  unfold gr_var_x, gr_var. rewrite Qred_correct, wssr_eq.
+  rewrite (wss_proper _ _ _ _ (gr_mean_x_eq xs)). reflexivity.
+Qed.
+
+Lemma gr_scale_x_eq KF xs : gr_scale_x KF xs == gr_scale KF xs.
+Proof. unfold gr_scale_x, gr_scale. rewrite gr_var_x_eq. reflexivity. Qed.
